@@ -69,6 +69,13 @@ def amax(
     """
     del out
     a = numpoly.aspolynomial(a)
+    # the start value is a number to compare the result with, not a rank
+    initial = kwargs.pop("initial", None)
+    if initial is not None:
+        where = kwargs.pop("where", True)
+        if where is not True:
+            a = numpoly.where(numpy.broadcast_to(where, a.shape), a, initial)
+        return numpoly.maximum(amax(a, axis=axis, **kwargs), initial)
     options = numpoly.get_options()
     proxy = numpoly.sortable_proxy(
         a, graded=options["sort_graded"], reverse=options["sort_reverse"]
